@@ -46,6 +46,57 @@ func (in *Interp) addAttr(p *Ptr, key string, val *smt.Term) {
 	in.callFunction(fn, []Value{p, smt.StrLit(key), val}, nil)
 }
 
+// dsigVerified: what a successful Validate returns — a fresh copy of the element without its enveloped Signature,
+// marked vx-verified, as the root of a fresh document.
+func (in *Interp) dsigVerified(el *Ptr) Value {
+	out := in.elemCopy(el)
+	// drop the enveloped Signature child (direct child named Signature) if the scenario carries one
+	rm := in.etreeMethod(types.NewPointer(in.etreeType("Element")), "RemoveChildAt")
+	oe := in.viewElem(out)
+	removed := false
+	for i, c := range oe.Children {
+		if c.Kind != "elem" {
+			continue
+		}
+		ce := in.viewElem(c.Elem)
+		if ce.Tag.Const && ce.Tag.Str == "Signature" {
+			in.callFunction(rm, []Value{out, smt.BV(uint64(i), 64)}, nil)
+			removed = true
+			break
+		}
+	}
+	if !removed {
+		// the enveloped signature may sit deeper (e.g. inside samlp:Extensions): the transform removes it there
+		for _, c := range oe.Children {
+			if c.Kind != "elem" || removed {
+				continue
+			}
+			ce := in.viewElem(c.Elem)
+			if _, holder := ce.attr("vx-sigholder"); !holder {
+				continue
+			}
+			for j, cc := range ce.Children {
+				if cc.Kind == "elem" {
+					cce := in.viewElem(cc.Elem)
+					if cce.Tag.Const && cce.Tag.Str == "Signature" {
+						in.callFunction(rm, []Value{c.Elem, smt.BV(uint64(j), 64)}, nil)
+						removed = true
+						break
+					}
+				}
+			}
+		}
+	}
+	in.addAttr(out, "vx-verified", smt.StrLit("1"))
+	// goxmldsig re-parses the canonical signed bytes and returns the root of that fresh document
+	// (so the returned element has the document as its parent, not nil)
+	nd := in.P.Pkgs[etreePkg].Func("NewDocument")
+	doc := in.callFunction(nd, nil, nil).(*Ptr)
+	setRoot := in.etreeMethod(types.NewPointer(in.etreeType("Document")), "SetRoot")
+	in.callFunction(setRoot, []Value{doc, out}, nil)
+	return Tuple{out, nilError()}
+}
+
 func init() {
 	models["(*"+dsigPkg+".ValidationContext).Validate"] = func(in *Interp, fn *ssa.Function, a []Value) Value {
 		ctxp, _ := a[0].(*Ptr)
@@ -75,6 +126,9 @@ func init() {
 			if sig != "none" {
 				in.goPanic("nil certificate store dereferenced by goxmldsig")
 			}
+		}
+		if signer, ok := e.attr("vx-signer"); ok && signer.Const && sig == "valid" {
+			return in.dsigValidateV2(call, el, e, signer.Str)
 		}
 		var certTime *smt.Term
 		if sig != "none" {
@@ -118,52 +172,7 @@ func init() {
 				in.event("dsig: certificate not trusted / outside validity at ctx.Clock")
 				return Tuple{nilPtr, in.opaqueError("dsig-cert")}
 			}
-			out := in.elemCopy(el)
-			// drop the enveloped Signature child (direct child named Signature) if the scenario carries one
-			rm := in.etreeMethod(types.NewPointer(in.etreeType("Element")), "RemoveChildAt")
-			oe := in.viewElem(out)
-			removed := false
-			for i, c := range oe.Children {
-				if c.Kind != "elem" {
-					continue
-				}
-				ce := in.viewElem(c.Elem)
-				if ce.Tag.Const && ce.Tag.Str == "Signature" {
-					in.callFunction(rm, []Value{out, smt.BV(uint64(i), 64)}, nil)
-					removed = true
-					break
-				}
-			}
-			if !removed {
-				// the enveloped signature may sit deeper (e.g. inside samlp:Extensions): the transform removes it there
-				for _, c := range oe.Children {
-					if c.Kind != "elem" || removed {
-						continue
-					}
-					ce := in.viewElem(c.Elem)
-					if _, holder := ce.attr("vx-sigholder"); !holder {
-						continue
-					}
-					for j, cc := range ce.Children {
-						if cc.Kind == "elem" {
-							cce := in.viewElem(cc.Elem)
-							if cce.Tag.Const && cce.Tag.Str == "Signature" {
-								in.callFunction(rm, []Value{c.Elem, smt.BV(uint64(j), 64)}, nil)
-								removed = true
-								break
-							}
-						}
-					}
-				}
-			}
-			in.addAttr(out, "vx-verified", smt.StrLit("1"))
-			// goxmldsig re-parses the canonical signed bytes and returns the root of that fresh document
-			// (so the returned element has the document as its parent, not nil)
-			nd := in.P.Pkgs[etreePkg].Func("NewDocument")
-			doc := in.callFunction(nd, nil, nil).(*Ptr)
-			setRoot := in.etreeMethod(types.NewPointer(in.etreeType("Document")), "SetRoot")
-			in.callFunction(setRoot, []Value{doc, out}, nil)
-			return Tuple{out, nilError()}
+			return in.dsigVerified(el)
 		}
 		in.end("internal", "bad vx-sig %q", sig)
 		return nil
@@ -365,5 +374,115 @@ func init() {
 		in.Ghost["cipher:"+data.S] = plan
 		in.Ghost["cipherplan:"+name] = plan
 		return s
+	}
+}
+
+// dsigValidateV2: the certificate half of Validate spelled out as goxmldsig's verifyCertificate does it (lemma L2
+// executes that code itself): the scenario says which IdP key signed the element (vx-signer = index of a
+// certificate made by vStoreCert, or an index no store holds) and whether the Signature carries a KeyInfo
+// certificate (vx-keyinfo). The context's store is asked for its certificates through its real method.
+func (in *Interp) dsigValidateV2(call *validateCall, el *Ptr, e *xElem, signer string) Value {
+	in.X.noteAssumption("goxmldsig verifyCertificate (trust-store scenarios): clock read first; the KeyInfo certificate, or the store's only certificate when there is no KeyInfo (error unless the store holds exactly one), must equal a store certificate and the clock must lie inside its NotBefore..NotAfter; the signature then verifies iff that certificate belongs to the signing key")
+	keyinfo := true
+	if v, ok := e.attr("vx-keyinfo"); ok && v.Const && v.Str == "0" {
+		keyinfo = false
+	}
+	var now *TimeV
+	if cp, _ := call.Clock.(*Ptr); cp != nil {
+		if cn, _ := cp.Obj.Ghost["clock"].(string); cn != "" {
+			now = in.clockNow(cn).(*TimeV)
+		}
+	}
+	if now == nil {
+		now = in.wallNow("dsig with nil Clock").(*TimeV)
+	}
+	st, _ := call.Store.(*Iface)
+	if st == nil || st.T == nil {
+		in.goPanic("nil certificate store dereferenced by goxmldsig")
+	}
+	res := in.callFunction(in.lookupMethodByName(st.T, "Certificates"), []Value{st.V}, nil).(Tuple)
+	if ei, _ := res[1].(*Iface); ei != nil && ei.T != nil {
+		return Tuple{nilPtr, res[1]}
+	}
+	roots := in.sliceElems(res[0])
+	idx := func(v Value) string {
+		p, _ := v.(*Ptr)
+		if p == nil || p.Obj == nil || p.Obj.Ghost == nil {
+			return "?"
+		}
+		s, _ := p.Obj.Ghost["idpcert"].(string)
+		return s
+	}
+	var trusted *Ptr
+	if keyinfo {
+		for _, r := range roots {
+			if idx(r) == signer {
+				trusted = r.(*Ptr)
+			}
+		}
+		if trusted == nil {
+			in.event("dsig: KeyInfo certificate is not in the store")
+			return Tuple{nilPtr, in.opaqueError("dsig-cert-not-in-store")}
+		}
+	} else {
+		if len(roots) != 1 {
+			in.event("dsig: no KeyInfo and the store does not hold exactly one certificate")
+			return Tuple{nilPtr, in.opaqueError("dsig-missing-x509")}
+		}
+		trusted, _ = roots[0].(*Ptr)
+		if trusted == nil {
+			in.goPanic("nil certificate in store")
+		}
+	}
+	ct := trusted.Obj.T
+	cv := in.load(trusted).(*StructV)
+	nb := cv.F[fieldIndex(ct, "NotBefore")].(*TimeV)
+	na := cv.F[fieldIndex(ct, "NotAfter")].(*TimeV)
+	if in.Branch(smt.Or(smt.BVSlt(now.Inst, nb.Inst), smt.BVSlt(na.Inst, now.Inst))) {
+		in.event("dsig: certificate outside its validity at ctx.Clock")
+		return Tuple{nilPtr, in.opaqueError("dsig-cert-window")}
+	}
+	if idx(trusted) != signer {
+		in.event("dsig: signature does not verify under the store's certificate")
+		return Tuple{nilPtr, in.opaqueError("dsig-invalid")}
+	}
+	return in.dsigVerified(el)
+}
+
+func init() {
+	// vStoreCert(i): the certificate of IdP signing key number i (validity bounds symbolic, whole seconds 1970..2100)
+	intrinsics["vStoreCert"] = func(in *Interp, fn *ssa.Function, a []Value) Value {
+		i := in.concreteInt(termArg(in, a[0]), "vStoreCert index")
+		key := fmt.Sprintf("storecert:%d", i)
+		if o, ok := in.Ghost[key].(*Object); ok {
+			return &Ptr{Obj: o}
+		}
+		ct := derefType(fn.Signature.Results().At(0).Type())
+		sv := zeroValue(ct).(*StructV)
+		f := make([]Value, len(sv.F))
+		copy(f, sv.F)
+		name := fmt.Sprintf("idpcert.%d", i)
+		nbs := smt.NewVar(symName(name+".nb_sec"), smt.KBV, 64)
+		nas := smt.NewVar(symName(name+".na_sec"), smt.KBV, 64)
+		in.addInput(name+".nb_sec", "i64", nbs)
+		in.addInput(name+".na_sec", "i64", nas)
+		in.Assume(smt.And(smt.BVSle(smt.BV(0, 64), nbs), smt.BVSle(nbs, nas), smt.BVSle(nas, smt.BV(4102444800, 64))))
+		f[fieldIndex(ct, "NotBefore")] = &TimeV{Inst: smt.BVMul(nbs, smt.BV(1000000000, 64)), UTC: smt.True, Clock: "cert"}
+		f[fieldIndex(ct, "NotAfter")] = &TimeV{Inst: smt.BVMul(nas, smt.BV(1000000000, 64)), UTC: smt.True, Clock: "cert"}
+		o := in.newObject(ct, &StructV{F: f}, name)
+		o.Ghost = map[string]interface{}{"idpcert": fmt.Sprintf("%d", i)}
+		in.Ghost[key] = o
+		return &Ptr{Obj: o}
+	}
+	for _, w := range []string{"NotBefore", "NotAfter"} {
+		w := w
+		intrinsics["vStoreCert"+w] = func(in *Interp, fn *ssa.Function, a []Value) Value {
+			i := in.concreteInt(termArg(in, a[0]), "vStoreCert index")
+			o, ok := in.Ghost[fmt.Sprintf("storecert:%d", i)].(*Object)
+			if !ok {
+				in.end("internal", "vStoreCert%s(%d): no such certificate", w, i)
+			}
+			return o.V.(*StructV).F[fieldIndex(o.T, w)].(*TimeV).Inst
+		}
 	}
 }
